@@ -86,6 +86,36 @@ impl SparqlValue {
         }
     }
 
+    /// Whether `term` is a literal with a numeric datatype
+    /// whose lexical form is not valid for that datatype.
+    pub fn is_ill_formed_number(term: &ArcTerm) -> bool {
+        let ArcTerm::Literal(GenericLiteral::Typed(_, dt)) = term else {
+            return false;
+        };
+        let dt = dt.as_str();
+        dt.starts_with(xsd::PREFIX.as_str())
+            && matches!(
+                &dt[xsd::PREFIX.len()..],
+                "integer"
+                    | "decimal"
+                    | "float"
+                    | "double"
+                    | "nonPositiveInteger"
+                    | "negativeInteger"
+                    | "long"
+                    | "int"
+                    | "short"
+                    | "byte"
+                    | "nonNegativeInteger"
+                    | "unsignedLong"
+                    | "unsignedInt"
+                    | "unsignedShort"
+                    | "unsignedByte"
+                    | "positiveInteger"
+            )
+            && Self::try_from_term(term).is_none()
+    }
+
     pub fn is_truthy(&self) -> Option<bool> {
         match self {
             SparqlValue::Number(n) => Some(n.is_truthy()),
